@@ -30,8 +30,8 @@ func coqCase(ctx *hx.Ctx, c Case, o Obs) (term, key string, nontrivial bool) {
 	if strings.Contains(o.Msg, "loops") {
 		ctx.Count("tree.hardlink-loop-rejected")
 	}
-	if strings.Contains(o.Msg, "hardlink to the directory") {
-		ctx.Count("tree.hardlink-to-dir-rejected")
+	if o.Msg == "shared-directory" {
+		ctx.Count("tree.shared-directory")
 	}
 	if strings.Contains(o.Msg, "invalid chunk (offset") {
 		ctx.Count("read.bad-chunk-rejected")
